@@ -42,14 +42,17 @@ ASSUMPTIONS = [
 TRUSTED = ["PyYAML safe_load/CDumper (oracle, tested per run)", "harness/tables/c06.py (live metadata/column tables)"]
 MANIFEST = dict(
     text="Coq model on YAML trees of QuaMap.read/write, _read_notes, the four from_yaml/to_yaml DataFrame pipelines and the "
-         "metadata reader/writer; specification qua_denote/chart_denote/wf_qua_doc written from the format rules (DESIGN B.2); "
-         "theorems for all inputs in the guarded domain (reader = qua_denote, writer output well-formed and denoting the chart "
-         "with times moved < 1 ms, oracle soundness) plus _refuted witnesses for the defects of the pinned tree; on every run "
-         "the model is compared in Coq with the implementation on generated documents and in-memory charts (native and "
-         "produced by the four converters), two generations deep, and the oracle is evaluated on the implementation's outputs.",
+         "metadata reader/writer; specification qua_denote/chart_denote/wf_qua_doc written from the format rules (DESIGN B.2). "
+         "Proved for all inputs: soundness of the read/write/round-trip oracles, written times within 1 ms and stable from the "
+         "second generation on, Tags split/join laws, the hit writer on lists with the declared columns, timing-point and "
+         "scroll-velocity reading per record; _refuted witnesses for seven defect classes of the pinned tree. The whole-document "
+         "read/write theorems are partial: on every run the model is compared in Coq with the implementation on generated "
+         "documents and in-memory charts (native and produced by the four converters), two generations deep, and the proven-sound "
+         "oracle is evaluated on the implementation's outputs.",
     note="Trusted: Coq kernel+VM, harness generator/serialiser, PyYAML as a tested oracle, live tables translator. "
-         "Known findings (index key, KeySounds .nan, omitted StartTime on holds, omitted Lane everywhere, "
-         "InitialScrollVelocity '') are reported as KNOWN-FINDING; any other violation raises.",
+         "Known findings (omitted KeySounds -> .nan, omitted StartTime on holds, omitted Lane everywhere, "
+         "InitialScrollVelocity '', and - before the fix: commits - index key / KeySounds .nan from converters) are "
+         "reported as KNOWN-FINDING; any other violation raises.",
     technique="Coq proof over executable model + vm_compute correspondence and oracle on implementation output",
     design="4/C06, B.2")
 
